@@ -253,12 +253,15 @@ func (s *partSUT) apply(op partOp) (res J, err error) {
 			return J{"ok": ok, "busy": busy}, nil
 		}
 		removed, ok := s.pred.RemovePartitionsMatching(keyCtx("predicate", op.Key))
-		ids := []string{}
+		ids := J{}
 		gone := map[string]bool{}
+		for _, id := range s.ids {
+			ids[id] = false
+		}
 		for _, p := range removed {
 			for _, id := range s.ids {
 				if s.pobj[id] == p {
-					ids = append(ids, id)
+					ids[id] = true
 					gone[id] = true
 				}
 			}
